@@ -118,6 +118,15 @@ func makeRemoteSource(sourceType string, u *url.URL, subPath string) (RemoteSour
 		return RemoteSource{}, err
 	}
 
+	// Normalize the URL to the representation that parsing its own string
+	// form produces. url.URL keeps spelling details of the original input
+	// (such as RawPath) which do not survive String, and RemotePackage is
+	// compared with ==, so without this two addresses that print identically
+	// could compare as different.
+	if normU, err := url.Parse(u.String()); err == nil {
+		*u = *normU
+	}
+
 	return RemoteSource{
 		pkg: RemotePackage{
 			sourceType: sourceType,
